@@ -22,6 +22,8 @@ const rule = "rapid state machine of 1-40 steps (Put, Delete, ClearPrefix, Clear
 // Known findings of this property (see findings.json).
 const (
 	findZeroNibble = "C02-zero-nibble-prefix"
+	findLimitZero  = "C02-limit-zero-alldeleted"
+	findValueLast  = "C02-limit-children-before-value"
 )
 
 var alphabet = []byte{0x00, 0x01, 0x0f, 0x10, 0x11, 0x1f, 0xf0, 0xff}
@@ -51,6 +53,38 @@ func zeroNibbleTrigger(m kit.OrdMap, p []byte) bool {
 		return false
 	}
 	return len(trimmedNibbleMatches(m, p)) != len(m.WithPrefix(p))
+}
+
+// postOrder returns the matching keys in the order in which the implementation
+// deletes them under a limit: the descendants of a key (ascending) before the key
+// itself. It is only used to delimit the trigger class of finding
+// C02-limit-children-before-value, never as an oracle.
+func postOrder(matches []string) []string {
+	out := append([]string{}, matches...)
+	sort.SliceStable(out, func(i, j int) bool {
+		a, b := out[i], out[j]
+		switch {
+		case a != b && strings.HasPrefix(b, a): // a is an ancestor of b: b first
+			return false
+		case a != b && strings.HasPrefix(a, b):
+			return true
+		}
+		return a < b
+	})
+	return out
+}
+
+// valueLastTrigger is the exact trigger class of finding
+// C02-limit-children-before-value: 0 < limit < matches and the first `limit` keys
+// in descendants-first order are not the `limit` smallest matching keys.
+func valueLastTrigger(matches []string, limit int) bool {
+	if limit <= 0 || limit >= len(matches) {
+		return false
+	}
+	po := postOrder(matches)
+	a := append([]string{}, po[:limit]...)
+	sort.Strings(a)
+	return keysHex(a) != keysHex(matches[:limit])
 }
 
 type machine struct {
@@ -299,7 +333,20 @@ func (m *machine) step(t *rapid.T, i int) {
 			return
 		}
 		matches := m.model.WithPrefix(p)
-		limit := rapid.IntRange(0, len(matches)+1).Draw(t, "limit")
+		var limit int
+		if len(matches) >= 2 && rapid.IntRange(0, 2).Draw(t, "partial") > 0 {
+			limit = rapid.IntRange(1, len(matches)-1).Draw(t, "limit")
+		} else {
+			limit = rapid.IntRange(0, len(matches)+1).Draw(t, "limit")
+		}
+		if limit == 0 && len(matches) == 0 && kit.KnownOpen(findLimitZero) {
+			kit.Excluded(findLimitZero)
+			return
+		}
+		if kit.KnownOpen(findValueLast) && valueLastTrigger(matches, limit) {
+			kit.Excluded(findValueLast)
+			return
+		}
 		op := fmt.Sprintf("L%x/%d", p, limit)
 		c := ctx(op)
 		m.prefixLabels(p)
@@ -377,7 +424,7 @@ func TestC02Machine(t *testing.T) {
 		}
 		// start from a populated map most of the time so that short sequences are
 		// not spent on filling the trie
-		nInit := rapid.IntRange(0, 8).Draw(t, "ninit")
+		nInit := rapid.IntRange(0, 12).Draw(t, "ninit")
 		for j := 0; j < nInit; j++ {
 			k := kit.GenShortKey().Draw(t, "ik")
 			if rapid.IntRange(0, 9).Draw(t, "ilong") == 0 {
@@ -400,10 +447,165 @@ func TestC02Machine(t *testing.T) {
 	})
 }
 
-func TestC02Regressions(t *testing.T) {
-	defer kit.Flush()
+func mkTrie(t *testing.T, v1 bool, kv ...string) *inmemory.InMemoryTrie {
+	tr := inmemory.NewEmptyTrie()
+	if v1 {
+		tr.SetVersion(trie.V1)
+	}
+	for i := 0; i+1 < len(kv); i += 2 {
+		if err := tr.Put([]byte(kv[i]), []byte(kv[i+1])); err != nil {
+			t.Fatalf("Put: %v", err)
+		}
+	}
+	return tr
 }
 
+func keySet(ks [][]byte) string {
+	ss := make([]string, len(ks))
+	for i, k := range ks {
+		ss[i] = string(k)
+	}
+	sort.Strings(ss)
+	return keysHex(ss)
+}
+
+func entryKeys(tr *inmemory.InMemoryTrie) string {
+	return keysHex(kit.OrdMap(tr.Entries()).Keys())
+}
+
+// TestC02Regressions: shrunk failures found by TestC02Machine on the pinned
+// tree, repaired by fixes/01 and fixes/02; plain deterministic cases.
+func TestC02Regressions(t *testing.T) {
+	defer kit.Flush()
+	for _, v1 := range []bool{false, true} {
+		// fixes/01: GetKeysWithPrefix with a prefix that diverges from a branch partial key
+		func() {
+			defer func() {
+				if r := recover(); r != nil {
+					t.Errorf("GetKeysWithPrefix(12) on {1300,1311} panics: %v", r)
+				}
+			}()
+			tr := mkTrie(t, v1, "\x13\x00", "a", "\x13\x11", "b")
+			if got := keySet(tr.GetKeysWithPrefix([]byte{0x12})); got != "[]" {
+				t.Errorf("GetKeysWithPrefix(12) on {1300,1311} = %s, want []", got)
+			}
+		}()
+		tr := mkTrie(t, v1, "\x13\x05", "a", "\x13\x11", "b")
+		if got := keySet(tr.GetKeysWithPrefix([]byte{0x12, 0x05})); got != "[]" {
+			t.Errorf("GetKeysWithPrefix(1205) on {1305,1311} = %s, want []", got)
+		}
+		// fixes/02: Get of an absent key returned the value of another key
+		tr = mkTrie(t, v1, "\x00", "a", "\x00\x00", "b")
+		if got := tr.Get([]byte{}); got != nil {
+			t.Errorf("Get('') on {00,0000} = %x, want nil", got)
+		}
+		tr = mkTrie(t, v1, "\x11\x00", "a", "\x11\x11", "b")
+		if got := tr.Get([]byte{0x00}); got != nil {
+			t.Errorf("Get(00) on {1100,1111} = %x, want nil", got)
+		}
+		tr = mkTrie(t, v1, "\x61\x61", "a", "\x61\x61\x62", "b", "\x62", "c")
+		if got := tr.Get([]byte{0x61}); got != nil {
+			t.Errorf("Get(61) on {6161,616162,62} = %x, want nil", got)
+		}
+		if got := tr.Get([]byte{0x61, 0x61}); string(got) != "a" {
+			t.Errorf("Get(6161) = %x, want 'a'", got)
+		}
+		kit.Case(fmt.Sprintf("regressions v1=%v", v1), true, "regression")
+	}
+}
+
+// TestC02KnownZeroNibblePrefix: witness of finding C02-zero-nibble-prefix.
 func TestC02KnownZeroNibblePrefix(t *testing.T) {
 	defer kit.Flush()
+	build := func() *inmemory.InMemoryTrie {
+		return mkTrie(t, false, "\x10\x01", "a", "\x11\x01", "b", "\x20", "c")
+	}
+	const (
+		right = "[1001]"      // byte-wise matches of prefix 0x10
+		wide  = "[1001 1101]" // matches of the nibble prefix "1"
+	)
+	var obs []string
+	obs = append(obs, keySet(build().GetKeysWithPrefix([]byte{0x10})))
+	tr := build()
+	if err := tr.ClearPrefix([]byte{0x10}); err != nil {
+		t.Fatalf("ClearPrefix: %v", err)
+	}
+	switch entryKeys(tr) {
+	case "[1101 20]":
+		obs = append(obs, right)
+	case "[20]":
+		obs = append(obs, wide)
+	default:
+		t.Fatalf("ClearPrefix(10) on {1001,1101,20} left %s", entryKeys(tr))
+	}
+	tr = build()
+	deleted, all, err := tr.ClearPrefixLimit([]byte{0x10}, 5)
+	if err != nil {
+		t.Fatalf("ClearPrefixLimit: %v", err)
+	}
+	switch {
+	case entryKeys(tr) == "[1101 20]" && deleted == 1 && all:
+		obs = append(obs, right)
+	case entryKeys(tr) == "[20]" && deleted == 2 && all:
+		obs = append(obs, wide)
+	default:
+		t.Fatalf("ClearPrefixLimit(10,5) on {1001,1101,20} = (%d,%v), left %s", deleted, all, entryKeys(tr))
+	}
+	nWide := 0
+	for _, o := range obs {
+		switch o {
+		case wide:
+			nWide++
+		case right:
+		default:
+			t.Fatalf("GetKeysWithPrefix(10) on {1001,1101,20} = %s: neither the byte-wise nor the trimmed-nibble result", o)
+		}
+	}
+	if nWide > 0 {
+		kit.WitnessResult(findZeroNibble, true, fmt.Sprintf("on {1001,1101,20} prefix 0x10 also matches 1101 in %d of GetKeysWithPrefix/ClearPrefix/ClearPrefixLimit", nWide))
+	} else {
+		kit.WitnessResult(findZeroNibble, false, "")
+	}
+}
+
+// TestC02KnownLimitZero: witness of finding C02-limit-zero-alldeleted.
+func TestC02KnownLimitZero(t *testing.T) {
+	defer kit.Flush()
+	present := 0
+	for i, tr := range []*inmemory.InMemoryTrie{mkTrie(t, false), mkTrie(t, false, "\x01", "a")} {
+		before := entryKeys(tr)
+		deleted, all, err := tr.ClearPrefixLimit([]byte{0x02}, 0)
+		if err != nil || deleted != 0 || entryKeys(tr) != before {
+			t.Fatalf("case %d: ClearPrefixLimit(02, 0) = (%d,%v,%v), entries %s -> %s", i, deleted, all, err, before, entryKeys(tr))
+		}
+		if !all {
+			present++
+		}
+	}
+	switch present {
+	case 2:
+		kit.WitnessResult(findLimitZero, true, "ClearPrefixLimit(0x02, 0) on {} and on {01} reports allDeleted=false although no key has the prefix")
+	case 0:
+		kit.WitnessResult(findLimitZero, false, "")
+	default:
+		t.Fatalf("ClearPrefixLimit(02, 0): allDeleted differs between the empty trie and {01}")
+	}
+}
+
+// TestC02KnownChildrenBeforeValue: witness of finding C02-limit-children-before-value.
+func TestC02KnownChildrenBeforeValue(t *testing.T) {
+	defer kit.Flush()
+	tr := mkTrie(t, false, "\x01", "a", "\x01\x00", "b", "\x01\x01", "c")
+	deleted, all, err := tr.ClearPrefixLimit([]byte{0x01}, 1)
+	if err != nil || deleted != 1 || all {
+		t.Fatalf("ClearPrefixLimit(01, 1) on {01,0100,0101} = (%d,%v,%v), want (1,false,nil)", deleted, all, err)
+	}
+	switch entryKeys(tr) {
+	case "[01 0101]":
+		kit.WitnessResult(findValueLast, true, "ClearPrefixLimit(0x01, 1) on {01,0100,0101} removes 0100 and keeps the smaller key 01")
+	case "[0100 0101]":
+		kit.WitnessResult(findValueLast, false, "")
+	default:
+		t.Fatalf("ClearPrefixLimit(01, 1) on {01,0100,0101} left %s", entryKeys(tr))
+	}
 }
